@@ -1,7 +1,7 @@
 """C05: object bytes follow the documented binary layout (DESIGN.md 2/C05)."""
 import hashlib
 
-from . import common, cons, hand, place, universe, xt
+from . import common, cons, hand, hist, place, universe, xt
 
 PID = "C05"
 FORMS = ["py", "nd", "ndF", "cap", "xobj-other"]
@@ -24,17 +24,43 @@ def describe(tier):
         "only from Architecture.md / docs/architecture/types.rst, given AST + raw bytes + offset, must recover the value, find every part on a slot "
         "boundary, size words equal to extents, struct offset words in declaration order, item-offset tables and strides in memory order, strings "
         "NUL-terminated and zero padded inside a whole number of slots, references relative to their own slot with the reserved null encodings. "
-        "distinct = new (type, object bytes).",
+        "distinct = new (type, object bytes).  History part: after every legal assignment (leaf, whole compound; handle and view) on the history sub-universe the bytes are decoded again and must equal the model.",
         bounds=dict(universe="as C01", values=cons.VMODES, forms=FORMS),
         assumptions=["the decoder is the harness's reading of the documented format (xoverif/xt.py: decode); it never imports xobjects"],
-        must_fire=["construct"],
+        must_fire=["construct", "set", "setc"],
     )
 
 
 def shards(tier, seed):
     ts = universe.universe(tier, "all+3" if tier == "thorough" else "all")
-    ts = ts[seed % len(ts):] + ts[: seed % len(ts)]
-    return cons.chunk(ts, 64 if tier == "quick" else 192)
+    out = [("cons", c) for c in cons.chunk(ts, 64 if tier == "quick" else 192)]
+    vm = ["ramp", "long"] if tier == "quick" else ["ramp", "long", "extreme"]
+    out += [("hist", t, v, "dirtyhole") for t in universe.rh(tier) for v in vm]
+    return out[seed % len(out):] + out[: seed % len(out)]
+
+
+OPTS = dict(vias=("h", "v"), vals=2, compounds=True, grow=False, deep_leaves=4)
+
+
+def judge_hist(s, ev, res):
+    """after every legal assignment the bytes must still follow the documented layout and decode to the model"""
+    try:
+        with common.Watchdog(30):
+            hist.apply_event(s, ev)
+    except Exception as e:
+        res.skipped["event-refused(C10's business):" + common.exc_failure(e)] += 1
+        return [], False
+    b = place.whole(s.h._buffer)
+    try:
+        val, size = xt.decode(s.t, b, int(s.h._offset))
+    except xt.Bad as e:
+        res.outcomes["bad:" + e.clause] += 1
+        return [common.violation("C05." + e.clause, "layout-after-assignment:" + e.clause, {}, {}, str(e))], False
+    res.oracles["decode-after-assignment"] += 1
+    if not xt.veq(val, s.mv):
+        return [common.violation("C05.value", "decoded-value-mismatch-after-assignment", {}, {}, "first difference at %r: %s" % xt.vdiff(val, s.mv))], False
+    res.outcomes["ok:" + ev[0]] += 1
+    return [], True
 
 
 def judge(o, vmode, res, seen):
@@ -77,7 +103,15 @@ def judge(o, vmode, res, seen):
     return None
 
 
-def run_shard(types, tier, seed):
+def run_shard(shard, tier, seed):
+    if shard[0] == "hist":
+        res = common.ShardResult()
+        _, t, vmode, pname = shard
+        seen = hist.explore(t, vmode, pname, 1 if tier == "quick" else 2, OPTS, judge_hist, res, seed)
+        if seen:
+            res.states = res.nontrivial = len(seen)
+        return res
+    types = shard[1]
     res = common.ShardResult()
     seen = set()
     for t, vmode, v, form, pname in cons.enumerate_cases(types, cons.VMODES, FORMS, places_for(tier)):
@@ -100,6 +134,8 @@ def run_shard(types, tier, seed):
 
 
 def replay(case):
+    if "ev_idx" in case:
+        return hist.replay_case(case, OPTS, judge_hist)
     t = xt.retuple(case["type"])
     v = xt.gen(t, case["vmode"])
     o = cons.execute(t, v, case["form"], case["place"], 0)
